@@ -36,17 +36,26 @@ func (h *Histogram) Add(r *Result) {
 	h.Counts[i]++
 }
 
+// counts returns the per bucket counts, all zero when no Result was added yet.
+func (h *Histogram) counts() []uint64 {
+	if len(h.Counts) != len(h.Buckets) {
+		return make([]uint64, len(h.Buckets))
+	}
+	return h.Counts
+}
+
 // MarshalJSON returns a JSON encoding of the buckets and their counts.
 func (h *Histogram) MarshalJSON() ([]byte, error) {
 	var buf bytes.Buffer
 
 	// Custom marshalling to guarantee order.
+	counts := h.counts()
 	buf.WriteString("{")
 	for i := range h.Buckets {
 		if i > 0 {
 			buf.WriteString(", ")
 		}
-		if _, err := fmt.Fprintf(&buf, "\"%d\": %d", h.Buckets[i], h.Counts[i]); err != nil {
+		if _, err := fmt.Fprintf(&buf, "\"%d\": %d", h.Buckets[i], counts[i]); err != nil {
 			return nil, err
 		}
 	}
